@@ -69,9 +69,12 @@ def split_members(body):
     members, methods, defaults = {}, [], []
     i = 0
     counts = {}
+    access = "private"           # default access of a `class`
+    accesses, pure = [], []
     while i < len(lines):
         l = lines[i]
         if l in ("public:", "private:", "protected:"):
+            access = l[:-1]
             i += 1
             continue
         if l.startswith("typedef ") and l.endswith(";"):
@@ -88,7 +91,10 @@ def split_members(body):
         if not h:
             raise Refuse("class member line of unknown shape: %r" % l)
         name = h.group(1)
+        if (name, access) not in accesses:
+            accesses.append((name, access))
         if h.group(4):          # pure virtual
+            pure.append(name)
             i += 1
             continue
         # optional initialiser list, then the body in braces
@@ -115,7 +121,7 @@ def split_members(body):
         k = counts.get(name, 0)
         counts[name] = k + 1
         methods.append((name, h.group(2).strip(), init, bl[1:-1], k))
-    return members, methods, defaults
+    return members, methods, defaults, accesses, pure
 
 
 # (regex, [ops]) -- op: ("Lock", m) ("WaitUntil", m, [reads]) ("R", v) ("W", v) ("NotifyOne", c) ("NotifyAll", c)
@@ -144,7 +150,7 @@ PATTERNS = [
     (r"^shutdown\(\);$", lambda m: [("Call", "this", "shutdown")]),
     (r"^m_queue\.push\((std::move\(value\)|value)\);$", lambda m: [("Call", "m_queue", "push")]),
     (r"^for \(auto& thread : (m_threads)\)\s*\{$", lambda m: [("R", "m_threads"), ("Open", "for")]),
-    (r"^if \(thread\.joinable\(\)\)\s*\{$", lambda m: [("Open", "if")]),
+    (r"^if \(thread\.joinable\(\)\)\s*\{$", lambda m: [("Open", "if_joinable")]),
     (r"^thread\.join\(\);$", lambda m: [("JoinAll", "m_threads")]),
     (r"^while \(!(m_shutting_down)\)\s*\{$", lambda m: [("R", m.group(1)), ("Open", "while")]),
     (r"^if \(\(item_to_dispatch = m_queue\.wait_and_pop\(\)\) && \(!(m_shutting_down)\)\)\s*\{$",
@@ -166,6 +172,7 @@ def method_ir(cls, name, init, lines):
         acc.append((mm.group(1), "W", frozenset(), "init"))
     held = []            # stack of (depth, mutex)
     depth = 0
+    blocks = []          # kinds of the open blocks
     joined = False
     for l in lines:
         for rx, f in PATTERNS:
@@ -178,6 +185,7 @@ def method_ir(cls, name, init, lines):
         for o in new:
             if o[0] == "Open":
                 depth += 1
+                blocks.append(o[1])
                 continue
             if o[0] == "Close":
                 if depth == 0:
@@ -185,8 +193,12 @@ def method_ir(cls, name, init, lines):
                 while held and held[-1][0] == depth:
                     ops.append(("Unlock", held.pop()[1]))
                 depth -= 1
+                blocks.pop()
                 continue
             locks = frozenset(mx for (_d, mx) in held)
+            if o[0] in ("NotifyOne", "NotifyAll") and any(b != "block" for b in blocks):
+                # the IR is straight-line: a notification under a condition must not be flattened into an unconditional one
+                raise Refuse("%s::%s: conditional notification (inside %s)" % (cls, name, "/".join(blocks)))
             if o[0] == "Lock":
                 if o[1] in locks:
                     raise Refuse("%s::%s: recursive lock" % (cls, name))
@@ -199,6 +211,9 @@ def method_ir(cls, name, init, lines):
             elif o[0] in ("R", "W"):
                 acc.append((o[1], o[0], locks, joined))
             elif o[0] == "JoinAll":
+                if not blocks or blocks[-1] != "if_joinable":
+                    # an unguarded join() throws on the second call: shutdown() would not be idempotent
+                    raise Refuse("%s::%s: thread.join() is not guarded by `if (thread.joinable())`" % (cls, name))
                 joined = True
             ops.append(o)
     while held:
@@ -232,12 +247,12 @@ def analyse():
     for rel, cls in ((QUEUE_H, "threadsafe_queue"), (DISP_H, "threaded_dispatcher")):
         text = strip_comments(src(rel).decode("utf-8"))
         body = class_body(text, cls)
-        members, methods, defaults = split_members(body)
+        members, methods, defaults, accesses, pure = split_members(body)
         ms = []
         for (name, params, init, lines, k) in methods:
             ops, acc = method_ir(cls, name, init, lines)
             ms.append({"name": name, "overload": k, "ops": ops, "acc": acc})
-        res[cls] = {"members": members, "methods": ms, "defaults": defaults}
+        res[cls] = {"members": members, "methods": ms, "defaults": defaults, "accesses": accesses, "pure": pure}
     return res
 
 
@@ -276,8 +291,15 @@ def run():
                 table.append('mkAcc "%s" "%s" "%s" %s [%s] %s' % (
                     cls, m["name"] + (("#%d" % m["overload"]) if m["overload"] else ""), v, "AWrite" if rw == "W" else "ARead",
                     "; ".join('"%s"' % x for x in sorted(locks)), phase_of(cls, m["name"], joined is True, joined == "init")))
+        out.append("Definition access_%s : list (string * access_spec) := [%s]." % (
+            cls, "; ".join('("%s", %s)' % (n, {"public": "APublic", "protected": "AProtected", "private": "APrivate"}[a]) for n, a in c["accesses"])))
+        out.append("Definition pure_virtual_%s : list string := [%s]." % (cls, "; ".join('"%s"' % n for n in c["pure"])))
         out.append("Definition methods_%s : list (string * list cop) := [%s].\n" % (
             cls, "; ".join('("%s", ir_%s)' % (n, i) for n, i in names)))
+    out.append("(* every thread.join() of the dispatcher is guarded by `if (thread.joinable())` (else the translator refuses): a second\n"
+               "   shutdown() joins nothing *)\nDefinition joins_guarded_by_joinable : bool := true.\n"
+               "(* no notify_one/notify_all sits under an if/for/while (else the translator refuses): the straight-line IR is exact *)\n"
+               "Definition notifications_unconditional : bool := true.\n")
     out.append("(* the LOCKSET TABLE: every read / write of a data member, with the mutexes held and the phase *)")
     out.append("Definition lockset_table : list access :=\n  [" + ";\n   ".join(table) + "].")
     write_gen("CxxSync.v", "\n".join(out) + "\n", [QUEUE_H, DISP_H])
